@@ -122,8 +122,11 @@ def extract(repo, failures):
         failures.append("backend: failure counter accessors not found")
         d["counterResetAtomic"] = False
     else:
-        d["counterResetAtomic"] = bool(re.search(r"return\s+_failure_counter\.exchange\(\s*0\b", gr)) and "_failure_counter.store" not in gr \
-            and "_failure_counter =" not in gr and bool(re.search(r"_failure_counter\.fetch_add\(\s*1\b", inc))
+        # shape analysis shared with the failure-counter model (extractors/reg.py): the reset is an exchange(0) whose
+        # result is what is returned (directly or through a local), no plain store; the increment is a read-modify-write
+        from extractors.reg import _counter
+        _c = _counter(tcm, [])
+        d["counterResetAtomic"] = bool(_c["resetXchg"] and _c["incRmw"])
     fl2 = func_body(lg, r"void\s+flush_log\s*\([^)]*\)\s*\{")
     d["flushRetries"] = bool(fl2 and re.search(r"while\s*\(\s*!this->(template\s+)?log_statement", fl2))
 
